@@ -13,6 +13,12 @@ func (op *FsTxn) postCommit() {
 func (op *FsTxn) commitWait(wait bool) bool {
 	op.preCommit()
 	ok := op.Atxn.Op.CommitWait(wait)
+	if !ok {
+		// nothing was committed (e.g., the transaction does not fit in the log):
+		// this is an abort, not a commit
+		op.Abort()
+		return false
+	}
 	op.postCommit()
 	return ok
 }
@@ -44,6 +50,15 @@ func (op *FsTxn) CommitFh() bool {
 // An aborted transaction may free an inode, which results in dirty
 // buffers that need to be written to log. So, call commit.
 func (op *FsTxn) Abort() bool {
+	if op.Atxn.Modified() {
+		// The abandoned transaction may have changed the cached copies of its
+		// inodes (and their name caches): drop them, so that the next user
+		// reads them from disk again.
+		for _, ip := range op.inodes {
+			cslot := op.Fs.Icache.LookupSlot(uint64(ip.Inum))
+			cslot.Obj = nil
+		}
+	}
 	op.releaseInodes()
 	op.Atxn.PostAbort()
 	return true
